@@ -113,8 +113,10 @@ def readBlock (dec : Bytes → Option Bytes) (file : Bytes) (b : Blk) : Option B
       | some d => if d.length = b.rawLen then some d else none
       | none => none
 
-def transposeBlocks (cols : List (List (Option Bytes))) (n : Nat) : List (List (Option Bytes)) :=
-  (List.range n).map fun i => cols.map fun c => (c[i]?).getD none
+/-- block `i` of every column, for `i = 0 … n-1` (a missing entry reads as an error) -/
+def transposeBlocks : List (List (Option Bytes)) → Nat → List (List (Option Bytes))
+  | _, 0 => []
+  | cols, n + 1 => (cols.map fun c => (c.head?).getD none) :: transposeBlocks (cols.map List.tail) n
 
 def view (dec : Bytes → Option Bytes) (d : Day) : View :=
   let percol := d.cols.map fun c => c.hdr.map (readBlock dec c.file)
